@@ -83,26 +83,32 @@ def polyw1Of : Lvl → Nat
 def polyetaOf : Lvl → Nat
   | .l2 => Gen.lvl2.POLYETA_PACKEDBYTES | .l3 => Gen.lvl3.POLYETA_PACKEDBYTES | .l5 => Gen.lvl5.POLYETA_PACKEDBYTES
 
+/-- the 9 bytes written for four 18-bit values t = γ1 − coefficient (i32 values) -/
+def z17_bytes (t0 t1 t2 t3 : Int) : List Nat :=
+  [ asU8 t0, asU8 (sar t0 8),
+    asU8 (sar t0 16) ||| asU8 (shl32 t1 2),
+    asU8 (sar t1 6),
+    asU8 (sar t1 14) ||| asU8 (shl32 t2 4),
+    asU8 (sar t2 4),
+    asU8 (sar t2 12) ||| asU8 (shl32 t3 6),
+    asU8 (sar t3 2), asU8 (sar t3 10) ]
+
 def z_pack_group17 (g1 : Int) (c : List Int) : Chk (List Nat) := do
   let t ← mapL (fun x => sub32 g1 x) c
   match t with
-  | [t0, t1, t2, t3] =>
-    .ok [ asU8 t0, asU8 (sar t0 8),
-          asU8 (sar t0 16) ||| asU8 (shl32 t1 2),
-          asU8 (sar t1 6),
-          asU8 (sar t1 14) ||| asU8 (shl32 t2 4),
-          asU8 (sar t2 4),
-          asU8 (sar t2 12) ||| asU8 (shl32 t3 6),
-          asU8 (sar t3 2), asU8 (sar t3 10) ]
+  | [t0, t1, t2, t3] => .ok (z17_bytes t0 t1 t2 t3)
   | _ => .error .len
+
+/-- the 5 bytes written for two 20-bit values -/
+def z19_bytes (t0 t1 : Int) : List Nat :=
+  [ asU8 t0, asU8 (sar t0 8),
+    asU8 (sar t0 16) ||| asU8 (shl32 t1 4),
+    asU8 (sar t1 4), asU8 (sar t1 12) ]
 
 def z_pack_group19 (g1 : Int) (c : List Int) : Chk (List Nat) := do
   let t ← mapL (fun x => sub32 g1 x) c
   match t with
-  | [t0, t1] =>
-    .ok [ asU8 t0, asU8 (sar t0 8),
-          asU8 (sar t0 16) ||| asU8 (shl32 t1 4),
-          asU8 (sar t1 4), asU8 (sar t1 12) ]
+  | [t0, t1] => .ok (z19_bytes t0 t1)
   | _ => .error .len
 
 /-- `poly::<set>::z_pack(r, a)` -/
@@ -111,23 +117,27 @@ def z_pack (lv : Lvl) (a : Poly) : Chk (List Nat) := do
   | .l2 => let g ← mapL (z_pack_group17 (gamma1Of lv)) (chunks 4 a); .ok g.flatten
   | _ => let g ← mapL (z_pack_group19 (gamma1Of lv)) (chunks 2 a); .ok g.flatten
 
+/-- the four 18-bit fields read from 9 bytes -/
+def z17_fields (b0 b1 b2 b3 b4 b5 b6 b7 b8 : Nat) : List Nat :=
+  [ (b0 ||| (b1 <<< 8) ||| (b2 <<< 16)) &&& 0x3FFFF,
+    ((b2 >>> 2) ||| (b3 <<< 6) ||| (b4 <<< 14)) &&& 0x3FFFF,
+    ((b4 >>> 4) ||| (b5 <<< 4) ||| (b6 <<< 12)) &&& 0x3FFFF,
+    ((b6 >>> 6) ||| (b7 <<< 2) ||| (b8 <<< 10)) &&& 0x3FFFF ]
+
 def z_unpack_group17 (g1 : Int) (b : List Nat) : Chk (List Int) :=
   match b with
   | [b0, b1, b2, b3, b4, b5, b6, b7, b8] =>
-    let r0 := (b0 ||| (b1 <<< 8) ||| (b2 <<< 16)) &&& 0x3FFFF
-    let r1 := ((b2 >>> 2) ||| (b3 <<< 6) ||| (b4 <<< 14)) &&& 0x3FFFF
-    let r2 := ((b4 >>> 4) ||| (b5 <<< 4) ||| (b6 <<< 12)) &&& 0x3FFFF
-    let r3 := ((b6 >>> 6) ||| (b7 <<< 2) ||| (b8 <<< 10)) &&& 0x3FFFF
-    mapL (fun (r : Nat) => sub32 g1 r) [r0, r1, r2, r3]
+    mapL (fun (r : Nat) => sub32 g1 r) (z17_fields b0 b1 b2 b3 b4 b5 b6 b7 b8)
   | _ => .error .len
 
 /-- γ1 = 2^19: the source masks coefficient 0 twice and coefficient 1 never (it cannot exceed 20 bits) -/
+def z19_fields (b0 b1 b2 b3 b4 : Nat) : List Nat :=
+  [ ((b0 ||| (b1 <<< 8) ||| (b2 <<< 16)) &&& 0xFFFFF) &&& 0xFFFFF,
+    (b2 >>> 4) ||| (b3 <<< 4) ||| (b4 <<< 12) ]
+
 def z_unpack_group19 (g1 : Int) (b : List Nat) : Chk (List Int) :=
   match b with
-  | [b0, b1, b2, b3, b4] =>
-    let r0 := ((b0 ||| (b1 <<< 8) ||| (b2 <<< 16)) &&& 0xFFFFF) &&& 0xFFFFF
-    let r1 := (b2 >>> 4) ||| (b3 <<< 4) ||| (b4 <<< 12)
-    mapL (fun (r : Nat) => sub32 g1 r) [r0, r1]
+  | [b0, b1, b2, b3, b4] => mapL (fun (r : Nat) => sub32 g1 r) (z19_fields b0 b1 b2 b3 b4)
   | _ => .error .len
 
 /-- `poly::<set>::z_unpack(r, a)` -/
@@ -177,19 +187,24 @@ def poly_challenge (p : Params) (fuel : Nat) (seed : List Nat) : Chk Poly := do
 
 /-! ### eta codec -/
 
+/-- the 3 bytes written for eight 3-bit values (u8 arithmetic: `<<` drops the bits shifted out) -/
+def eta2_bytes (t0 t1 t2 t3 t4 t5 t6 t7 : Nat) : List Nat :=
+  [ ((t0 >>> 0) ||| ((t1 <<< 3) % 256) ||| ((t2 <<< 6) % 256)),
+    ((t2 >>> 2) ||| ((t3 <<< 1) % 256) ||| ((t4 <<< 4) % 256) ||| ((t5 <<< 7) % 256)),
+    ((t5 >>> 1) ||| ((t6 <<< 2) % 256) ||| ((t7 <<< 5) % 256)) ]
+
 def eta_pack_group2 (c : List Int) : Chk (List Nat) := do
   let t ← mapL (fun x => do let d ← sub32 2 x; .ok (asU8 d)) c
   match t with
-  | [t0, t1, t2, t3, t4, t5, t6, t7] =>
-    .ok [ ((t0 >>> 0) ||| ((t1 <<< 3) % 256) ||| ((t2 <<< 6) % 256)),
-          ((t2 >>> 2) ||| ((t3 <<< 1) % 256) ||| ((t4 <<< 4) % 256) ||| ((t5 <<< 7) % 256)),
-          ((t5 >>> 1) ||| ((t6 <<< 2) % 256) ||| ((t7 <<< 5) % 256)) ]
+  | [t0, t1, t2, t3, t4, t5, t6, t7] => .ok (eta2_bytes t0 t1 t2 t3 t4 t5 t6 t7)
   | _ => .error .len
+
+def eta4_bytes (t0 t1 : Nat) : List Nat := [ t0 ||| ((t1 <<< 4) % 256) ]
 
 def eta_pack_group4 (c : List Int) : Chk (List Nat) := do
   let t ← mapL (fun x => do let d ← sub32 4 x; .ok (asU8 d)) c
   match t with
-  | [t0, t1] => .ok [ t0 ||| ((t1 <<< 4) % 256) ]
+  | [t0, t1] => .ok (eta4_bytes t0 t1)
   | _ => .error .len
 
 /-- `poly::<set>::eta_pack(r, a)` -/
@@ -198,18 +213,21 @@ def eta_pack (lv : Lvl) (a : Poly) : Chk (List Nat) := do
   | .l3 => let g ← mapL eta_pack_group4 (chunks 2 a); .ok g.flatten
   | _ => let g ← mapL eta_pack_group2 (chunks 8 a); .ok g.flatten
 
+/-- the eight 3-bit fields read from 3 bytes -/
+def eta2_fields (b0 b1 b2 : Nat) : List Nat :=
+  [ b0 &&& 7, (b0 >>> 3) &&& 7, ((b0 >>> 6) ||| ((b1 <<< 2) % 256)) &&& 7, (b1 >>> 1) &&& 7,
+    (b1 >>> 4) &&& 7, ((b1 >>> 7) ||| ((b2 <<< 1) % 256)) &&& 7, (b2 >>> 2) &&& 7, (b2 >>> 5) &&& 7 ]
+
 def eta_unpack_group2 (b : List Nat) : Chk (List Int) :=
   match b with
-  | [b0, b1, b2] =>
-    let r : List Nat :=
-      [ b0 &&& 7, (b0 >>> 3) &&& 7, ((b0 >>> 6) ||| ((b1 <<< 2) % 256)) &&& 7, (b1 >>> 1) &&& 7,
-        (b1 >>> 4) &&& 7, ((b1 >>> 7) ||| ((b2 <<< 1) % 256)) &&& 7, (b2 >>> 2) &&& 7, (b2 >>> 5) &&& 7 ]
-    mapL (fun (x : Nat) => sub32 2 x) r
+  | [b0, b1, b2] => mapL (fun (x : Nat) => sub32 2 x) (eta2_fields b0 b1 b2)
   | _ => .error .len
+
+def eta4_fields (b0 : Nat) : List Nat := [b0 &&& 0x0F, b0 >>> 4]
 
 def eta_unpack_group4 (b : List Nat) : Chk (List Int) :=
   match b with
-  | [b0] => mapL (fun (x : Nat) => sub32 4 x) [b0 &&& 0x0F, b0 >>> 4]
+  | [b0] => mapL (fun (x : Nat) => sub32 4 x) (eta4_fields b0)
   | _ => .error .len
 
 /-- `poly::<set>::eta_unpack(r, a)` -/
